@@ -3,4 +3,17 @@ import Driver
 def main (args : List String) : IO UInt32 := do
   match args with
   | ["queue"] => Driver.runLines Driver.Queue.runCase; return 0
+  | ["tasks"] => Driver.runLines Driver.Tasks.runCase; return 0
+  | ["cache"] => Driver.runLines Driver.Cache.runCase; return 0
+  | ["retry"] => Driver.runLines Driver.Retry.runCase; return 0
+  | ["throttle"] => Driver.runLines Driver.Throttle.runCase; return 0
+  | ["timeout"] => Driver.runLines Driver.Timeout.runCase; return 0
+  | ["disposables"] => Driver.runLines Driver.Disposables.runCase; return 0
+  | ["validate"] => Driver.runLines Driver.Validate.runCase; return 0
+  | ["completion"] => Driver.runLines Driver.ScopeRun.completionCase; return 0
+  | ["metrics"] => Driver.runLines Driver.ScopeRun.metricsCase; return 0
+  | ["logs"] => Driver.runLines Driver.ScopeRun.logsCase; return 0
+  | ["proc"] => Driver.runLines Driver.Proc.runCase; return 0
+  | ["groups"] => Driver.runLines Driver.Groups.runCase; return 0
+  | ["acache"] => Driver.runLines Driver.AsyncCache.runCase; return 0
   | _ => IO.eprintln "usage: hwmodel <component>"; return 2
